@@ -23,7 +23,7 @@ CHECKS = {}
 # properties that are deliberately not claimed: id -> reason
 NOT_APPLICABLE = {}
 # /repo commits that add build-tag guarded hooks
-HOOK_COMMITS = []
+HOOK_COMMITS = ["e07ac70"]
 
 _here = os.path.dirname(os.path.abspath(__file__))
 for _p in sorted(glob.glob(os.path.join(_here, "conf", "C*.py"))):
